@@ -6,8 +6,10 @@ print("Each change was written by a fresh sub-agent that saw the twenty property
 print("worktree of /repo (nothing from /verif). `confirmed` = tools/confirm_seed.sh: the agent's demonstration")
 print("passes without and with the change and the repository suite is unchanged (71 pass). `alarms` = quick")
 print("checks that exited 1 against a scratch copy with the change (selftest.sh); `checks ok` = checks that exited 0.\n")
-print("| change | focus | kind | what it does | observable difference | confirmed | checks ok | alarms |")
-print("|---|---|---|---|---|---|---|---|")
+print("`re-check` = the checks that gained assertions after that round (rounds 3-4 feedback), run again with the")
+print("final harness (selftest-recheck.txt): checks ok / alarms.\n")
+print("| change | focus | kind | what it does | observable difference | confirmed | checks ok | alarms | re-check |")
+print("|---|---|---|---|---|---|---|---|---|")
 for d in sorted(glob.glob('/verif/benign/B*-*')):
     name = os.path.basename(d)
     am = {}
@@ -19,4 +21,8 @@ for d in sorted(glob.glob('/verif/benign/B*-*')):
     alarms = ' '.join(sum((x.split() for x in re.findall(r'CAUGHT-BY:(.*)', st)), [])) or 'none'
     n0 = len(re.findall(r'^C\d\d rc=0', st, re.M))
     cl = lambda s: str(s).replace('|', '/').replace('\n', ' ')
-    print('| %s | %s | %s | %s | %s | %s | %d/20 | %s |' % (name, am.get('focus', ''), am.get('kind', ''), cl(am.get('summary', ''))[:220], cl(am.get('observable_difference', ''))[:160], 'yes' if ok else 'NO', n0, alarms))
+    rc = open(d + '/selftest-recheck.txt').read() if os.path.exists(d + '/selftest-recheck.txt') else ''
+    ra = ' '.join(sum((x.split() for x in re.findall(r'CAUGHT-BY:(.*)', rc)), [])) or 'none'
+    rn = len(re.findall(r'^C\d\d rc=0', rc, re.M)); rt = len(re.findall(r'^C\d\d rc=', rc, re.M))
+    recheck = ('%d/%d ok, alarms: %s' % (rn, rt, ra)) if rc else '-'
+    print('| %s | %s | %s | %s | %s | %s | %d/20 | %s | %s |' % (name, am.get('focus', ''), am.get('kind', ''), cl(am.get('summary', ''))[:220], cl(am.get('observable_difference', ''))[:160], 'yes' if ok else 'NO', n0, alarms, recheck))
